@@ -455,8 +455,16 @@ def replay_witnesses(ctx, h, mods, flavours, dist):
 
 
 def run(ctx):
+    import time
     from tools import gen_c03_props as GP
+    t0 = [time.time()]
+    phases = {}
+
+    def lap(name):
+        phases[name] = round(time.time() - t0[0], 1)
+        t0[0] = time.time()
     h = ctx.build_harness("c03")
+    lap("build_harness")
     rows = R.all_rows()
     dist, nontrivial, samples = {}, set(), []
     thorough = ctx.tier == "thorough"
@@ -471,28 +479,30 @@ def run(ctx):
     mods["grow"] = grid_module(ctx, h, "grow", R.GROW_ROWS, "g", fl_other, dist, nontrivial, samples,
                                text_fn=lambda rs: "(module\n  (memory 1 %d)\n%s\n)\n" % (R.GROW_MAX, "\n".join("  " + r.wat() for r in rs)),
                                pages=1, maxpages=R.GROW_MAX)
+    lap("instruction_grids")
     # ---- regenerated templates + proofs
     tpls, names = regenerate_templates(ctx, mods)
     dist["templates_modelled"] = len(names)
     dist["templates_unmodelled"] = dict((t["name"], t["unmodelled"]) for t in tpls if "lean" not in t)
-    proved_rows = set()
-    for mod in GP.modules():
-        src = open(os.path.join(vlib.LEAN, mod.replace(".", "/") + ".lean")).read()
-        proved_rows |= set(re.findall(r"^theorem (\w+?)_(?:ok|partial) ", src, re.M))
+    src = open(os.path.join(vlib.LEAN, "WaVerif", "Props", "C03.lean")).read()
+    proved_rows = set(re.findall(r"^theorem (\w+?)_(?:ok|partial) ", src, re.M))
     want_rows = set(r.name for r in rows if r.name in names and GP.statement(r) is not None)
     if proved_rows != want_rows:
         ctx.proof["broken"].append({"theorem": "C03 template row set", "why": "rows with a modelled template differ from the rows the theorems cover: "
                                     "no theorem for %s; theorem without template for %s (re-run tools/gen_c03_props.py)" % (
                                         sorted(want_rows - proved_rows)[:8], sorted(proved_rows - want_rows)[:8])})
-    for mod in GP.modules():
-        ctx.prove(mod, allow_extra_axioms=BV_AX)
+    ok, log = ctx.lake_build(GP.modules())          # the row proofs, in parallel
+    ctx.prove(required=sorted(re.findall(r"^theorem (\w+) ", src, re.M)), allow_extra_axioms=BV_AX)
+    lap("lean_proofs_and_audit")
     model = ctx.build_model("c03")
     if model:
         model_correspondence(ctx, model, mods, set(names), dist)
     replay_witnesses(ctx, h, mods, fl_int, dist)
+    lap("model_correspondence")
     # ---- control flow / calls / tables / globals / data segments: hand-written modules, executed only
     for tag in sorted(CORPUS_MODULES):
         corpus_module(ctx, h, tag, fl_other, dist, nontrivial)
+    lap("corpus_modules")
     # ---- whole modules produced by the real compiler
     cdir = os.path.join(vlib.VERIF, "corpus", "C03")
     progs = [(f[:-3], os.path.join(cdir, f)) for f in sorted(os.listdir(cdir)) if f.endswith(".wa")]
@@ -527,12 +537,15 @@ def run(ctx):
         if not ok:
             ctx.violation("native-host:missing-host-functions", "the translated module does not link against appbuild's own assets (native.cpp + native-js-host.cpp, "
                           "as the generated CMakeLists.txt builds them): %s" % detail, {"program": first_ok, "link_errors": detail})
+    lap("whole_programs")
+    dist["phase_seconds"] = phases
     cov = {"evaluations": sum(v for k, v in dist.items() if k.startswith("calls_")) + len(progs), "distinct_nontrivial": len(nontrivial),
            "rule": "per-instruction grid: distinct (instruction, operand class, WebAssembly outcome kind) triples over boundary x boundary operands "
                    "(0, +-1, min, max, powers of two, counts at/over the width, divisors 0 and -1, NaN/inf/limits); corpus modules and whole programs: one case per (function|program, outcome)",
            "samples": samples, "distribution": dist,
            "c_flavours": {"integer rows": fl_int, "other rows / modules": fl_other},
-           "checker_cmd": "lake build " + " ".join(GP.modules()) + "  (in /verif/lean; then `#audit_module` on each, see lib/vlib.py prove())"}
+           "checker_cmd": "lake build WaVerif.Props.C03 && lake env lean .audit/WaVerif_Props_C03.lean  (in /verif/lean; Props/C03.lean restates the theorems proved in "
+                          "Props/C03Rows*.lean; #audit_module prints each theorem's axioms)"}
     return ctx.finish("translation_validation", cov,
                       assumptions=["C semantics: LP64, two's complement, gcc/clang implementation-defined choices (modulo conversion to signed, arithmetic >> of negatives)",
                                    "wat2c's trap convention is abort(); a SIGFPE/SIGSEGV raised by the hardware for C-undefined code is NOT counted as a WebAssembly trap",
